@@ -1,7 +1,8 @@
 import DmrVerif.Driver.Loop
 import DmrVerif.Driver.Mbxml
 import DmrVerif.Driver.MbxmlX
+import DmrVerif.Driver.TranslMbxml
 
-/-! model driver for property C14 -/
+/-! model driver for property C14 (`t.mb.*`: the readers translated from the source, `Gen/TranslMbxml.lean`) -/
 
-def main : IO Unit := Dmr.Driver.runMain [Dmr.Driver.mbxmlOp, Dmr.Driver.mbxmlXOp]
+def main : IO Unit := Dmr.Driver.runMain [Dmr.Driver.mbxmlOp, Dmr.Driver.mbxmlXOp, Dmr.Driver.translMbxmlOp]
